@@ -5,6 +5,8 @@ import CliUtils.Drv.C06
 import CliUtils.Drv.C20
 import CliUtils.Drv.C17
 import CliUtils.Drv.C14
+import CliUtils.Drv.Sys
+import CliUtils.Drv.Status
 /-
   Line-protocol driver.  stdin: one JSON object per line  {"d": domain, "i": input, "o": implementation output}
   stdout: one line per case that needs attention, then one summary line.
@@ -27,7 +29,17 @@ def handlers : List (String × Handler) := [
   ("podctl", C17.handlePodctl),
   ("readstatus", C17.handleReadStatus),
   ("graph", C14.handleGraph),
-  ("depgraph", C14.handleDepgraph)
+  ("depgraph", C14.handleDepgraph),
+  ("sys", SysD.handleSysFor "all"),
+  ("sys-C01", SysD.handleSysFor "C01"), ("sys-C02", SysD.handleSysFor "C02"), ("sys-C03", SysD.handleSysFor "C03"),
+  ("sys-C04", SysD.handleSysFor "C04"), ("sys-C05", SysD.handleSysFor "C05"), ("sys-C10", SysD.handleSysFor "C10"),
+  ("sys-C11", SysD.handleSysFor "C11"), ("sys-C12", SysD.handleSysFor "C12"), ("sys-C13", SysD.handleSysFor "C13"),
+  ("status", KS.handleStatus),
+  ("status-c07", KS.handleStatusC07),
+  ("status-c08", KS.handleStatusC08),
+  ("status-malformed", KS.handleMalformed),
+  ("augment", KS.handleAugment),
+  ("kubectl", KS.handleKubectl)
 ]
 
 structure Stats where
